@@ -1,0 +1,72 @@
+package opset13
+
+import (
+	"sort"
+
+	"github.com/advancedclimatesystems/gonnx/ops"
+	"gorgonia.org/tensor"
+)
+
+// reduceFunc reduces a tensor along a single axis.
+type reduceFunc func(t *tensor.Dense, axis int) (*tensor.Dense, error)
+
+// reduceAxes reduces the given axes of the input tensor with the given reduce function, according
+// to the ONNX standard: axes may be negative, no axes means all axes, and the reduced axes are
+// kept with size 1 when keepDims is set.
+func reduceAxes(input tensor.Tensor, axes []int, keepDims bool, reduce reduceFunc) (tensor.Tensor, error) {
+	shape := input.Shape().Clone()
+	nDims := len(shape)
+
+	if !ops.AllInRange(axes, -nDims, nDims-1) {
+		return nil, ops.ErrNotAllAxesInRange(nDims, nDims)
+	}
+
+	reduceAxis := make([]bool, nDims)
+	for _, axis := range axes {
+		reduceAxis[ops.ConvertNegativeAxis(axis, nDims)] = true
+	}
+
+	sortedAxes := []int{}
+
+	for axis := 0; axis < nDims; axis++ {
+		if len(axes) == 0 || reduceAxis[axis] {
+			reduceAxis[axis] = true
+
+			sortedAxes = append(sortedAxes, axis)
+		}
+	}
+
+	sort.Sort(sort.Reverse(sort.IntSlice(sortedAxes)))
+
+	out := tensor.New(tensor.WithBacking(input.Data()), tensor.WithShape(shape...))
+
+	// Every axis is reduced separately, as the middle axis of a 3D tensor that consists of
+	// all axes before it, the axis itself and all axes after it.
+	for _, axis := range sortedAxes {
+		err := out.Reshape(ops.NElements(shape[:axis]...), shape[axis], ops.NElements(shape[axis+1:]...))
+		if err != nil {
+			return nil, err
+		}
+
+		out, err = reduce(out, 1)
+		if err != nil {
+			return nil, err
+		}
+
+		shape[axis] = 1
+	}
+
+	newShape := []int{}
+
+	for axis, size := range shape {
+		if keepDims || !reduceAxis[axis] {
+			newShape = append(newShape, size)
+		}
+	}
+
+	if err := out.Reshape(newShape...); err != nil {
+		return nil, err
+	}
+
+	return out, nil
+}
